@@ -823,16 +823,18 @@ func (a *Agent) DownloadAdd(FileID int, FilePath string, FileSize int64) error {
 		}
 
 		DemonPath        = logr.LogrInstance.AgentPath + "/" + a.NameID
-		DemonDownloadDir = DemonPath + "/Download"
+		DemonDownloadDir = filepath.Clean(DemonPath + "/Download")
 		DownloadFilePath = strings.Join(strings.Split(FilePath, "\\"), "/")
 		FileSplit        = strings.Split(DownloadFilePath, "/")
 		DownloadFile     = FileSplit[len(FileSplit)-1]
-		DemonDownload    = DemonDownloadDir + "/" + strings.Join(FileSplit[:len(FileSplit)-1], "/")
+		/* work on the cleaned directory from here on: checking the cleaned path but
+		 * creating the uncleaned one leaves the ".." detours behind as directories */
+		DemonDownload = filepath.Clean(DemonDownloadDir + "/" + strings.Join(FileSplit[:len(FileSplit)-1], "/"))
 	)
 
-	/* check if we don't have a path traversal */
-	path := filepath.Clean(DemonDownload)
-	if !strings.HasPrefix(path, DemonDownloadDir) {
+	/* check if we don't have a path traversal: the directory has to be the download
+	 * directory itself or lie below it ("Download_x" also starts with "Download") */
+	if DemonDownload != DemonDownloadDir && !strings.HasPrefix(DemonDownload, DemonDownloadDir+"/") {
 		logger.Error("File didn't started with agent download path. abort")
 		return errors.New("File didn't started with agent download path. abort")
 	}
